@@ -119,12 +119,14 @@ package agessh
 //@ func (*RSAIdentity).Unwrap(i, stanzas) (fk, err)
 //@   requires i.sshKey != nil && (forall j in 0..len(stanzas) :: stanzas[j] != nil)
 //@   ensures#nil err != nil ==> fk == nil                                                                          [C01 C04]
+//@   ensures#foreign (forall j in 0..len(stanzas) :: stanzas[j].Type != "ssh-rsa") ==> err == age.ErrIncorrectIdentity   [C01 C04]
 //@   ensures#frame i.k == old(i.k) && i.sshKey == old(i.sshKey)                                                    [C20]
 //@   modifies nothing
 
 //@ func (*Ed25519Identity).Unwrap(i, stanzas) (fk, err)
 //@   requires i.sshKey != nil && len(i.secretKey) == 32 && len(i.ourPublicKey) == 32 && (forall j in 0..len(stanzas) :: stanzas[j] != nil)
 //@   ensures#nil err != nil ==> fk == nil                                                                          [C01 C04]
+//@   ensures#foreign (forall j in 0..len(stanzas) :: stanzas[j].Type != "ssh-ed25519") ==> err == age.ErrIncorrectIdentity   [C01 C04]
 //@   ensures#frame i.secretKey == old(i.secretKey) && i.ourPublicKey == old(i.ourPublicKey) && i.sshKey == old(i.sshKey)   [C20]
 //@   modifies nothing
 
